@@ -8,7 +8,7 @@ from symv.trees import children_of, col, sym_tree, wf
 FUNCTIONS = ["swcgeom.core.tree_utils.redirect_tree", "swcgeom.core.tree_utils.cat_tree", "swcgeom.core.tree_utils._sort_tree",
              "swcgeom.core.swc_utils.normalizer.sort_nodes_impl", "swcgeom.core.swc.DictSWC.copy", "swcgeom.core.node.Node (pid/type setters)"
              ]
-ASSUMPTIONS = ["well-formed input trees rooted at node 0 (any numbering otherwise)", "floats as reals",
+ASSUMPTIONS = ["well-formed input trees under any numbering; the first tree and re-rooting inputs have their root at node 0, the second tree of cat_tree has its root at ANY position (as redirect_tree(sort=False) returns it)", "floats as reals",
                "junction merge: the code merges below EPS=1e-5; the oracle demands a merge when the junction nodes coincide exactly and forbids it when they are more than 2*EPS apart (the band in between is unconstrained)",
                "types of the second tree's old root and junction node after the internal re-rooting are not constrained (the property is silent); all other types are"]
 OUTSIDE = ["trees above the node bound", "IEEE rounding (in float32 a translated junction coincides only up to rounding)", "the legacy no_move argument", "transforms/path.py PathReverser/PathToTree (not named by the property statement; they only work on paths whose ids are positions)"]
@@ -16,9 +16,20 @@ OUTSIDE = ["trees above the node bound", "IEEE rounding (in float32 a translated
 EPS = 1e-5
 
 
-def _tree(c, n, tag, base=0):
-    """Symbolic tree; node types are pairwise distinct constants (the most discriminating choice for the type-exchange clause), old id carried in column k."""
+def _tree(c, n, tag, base=0, root_anywhere=False):
+    """Symbolic tree; node types are pairwise distinct constants (the most discriminating choice for the type-exchange clause), old id carried in column k.
+    root_anywhere: the root sits at a forked position (what redirect_tree(sort=False) returns), otherwise at node 0."""
     t, a = sym_tree(c, n, mode="any", extra=("w",), tag=tag)
+    if root_anywhere and n > 1:
+        rp = c.choice(tag + "rootpos", n)
+        if rp != 0:
+            sw = lambda i: rp if i == 0 else (0 if i == rp else i)
+            old = a["pid"]
+            new = [None] * n
+            for i in range(n):
+                new[sw(i)] = -1 if old[i] == -1 else sw(old[i])
+            a["pid"] = new
+            t.ndata["pid"] = np.array(new, dtype=np.int32)
     a["type"] = [1 + (i + (3 if base else 0)) % 7 for i in range(n)]
     t.ndata["type"] = np.array(a["type"], dtype=np.int32)
     t.ndata["k"] = np.arange(base, base + n, dtype=np.int32)
@@ -103,7 +114,8 @@ def h_cat(c, n1, n2, translate):
     from swcgeom.core import cat_tree
 
     t1, a1 = _tree(c, n1, "a")
-    t2, a2 = _tree(c, n2, "b", base=100)
+    t2, a2 = _tree(c, n2, "b", base=100, root_anywhere=True)
+    root2 = a2["pid"].index(-1)
     i1 = c.choice("node1", n1)
     i2 = c.choice("node2", n2)
     P1 = [a1[k][i1] for k in "xyz"]
@@ -155,7 +167,7 @@ def h_cat(c, n1, n2, translate):
         c.prove(f"cat.second_tree.{key}", And(*[eq(col(out, key)[pos[100 + j]], a2[key][j] + delta[ax]) for j in range(n2) if 100 + j in pos]))
     for key in ("r", "w"):
         c.prove(f"cat.second_tree.{key}", And(*[eq(col(out, key)[pos[100 + j]], a2[key][j]) for j in range(n2) if 100 + j in pos]))
-    c.prove("cat.second_tree.type", all(int(out.type()[pos[100 + j]]) == a2["type"][j] for j in range(n2) if 100 + j in pos and j not in (0, i2)))
+    c.prove("cat.second_tree.type", all(int(out.type()[pos[100 + j]]) == a2["type"][j] for j in range(n2) if 100 + j in pos and j not in (root2, i2)))
     _untouched(c, "cat.input1", t1, a1)
     _untouched(c, "cat.input2", t2, a2, base=100)
     for k in ("pid", "type", "k"):
@@ -164,11 +176,12 @@ def h_cat(c, n1, n2, translate):
     _untouched(c, "cat.input2_after_write", t2, a2, base=100)
     c.reachable("merged", merged)
     c.reachable("linked", not merged)
-    c.reachable("rerooted", i2 != 0)
+    c.reachable("rerooted", i2 != root2)
+    c.reachable("second_root_not_at_0_joined_at_0", root2 != 0 and i2 == 0)
     c.output("pid_out", pid_out)
 
 
-REACH = {"redirect": ["moved_root"], "cat": ["merged", "rerooted"], "cat_no_translate": ["merged", "linked", "rerooted"]}
+REACH = {"redirect": ["moved_root"], "cat": ["merged", "rerooted", "second_root_not_at_0_joined_at_0"], "cat_no_translate": ["merged", "linked", "rerooted"]}
 HARNESSES = [
     H("redirect", h_redirect, quick=[dict(n=k, sort=s) for k in (1, 2, 3, 4, 5) for s in (True, False)], thorough=[dict(n=6, sort=s) for s in (True, False)], functions=FUNCTIONS,
       bounds="every numbering (root 0) of every tree with n<=5 (quick) / 6 (thorough) nodes, every new root, sort on/off, pairwise distinct node types, coordinates/radii/extra column symbolic reals"),
